@@ -887,7 +887,7 @@ fn hand_programs() -> Vec<&'static str> {
         // loop-local assignments do not leak into a later loop started inside the same outer loop
         "{% for x in [1, u] %}[{{ loop.index }}/{{ loop.length }}]{% else %}EMPTY{% endfor %}",
         "{% for x in [u] %}i{% else %}EMPTY{% endfor %}|{% for x in [u, 1] %}i{% else %}EMPTY{% endfor %}|{% for x in [] %}i{% else %}EMPTY{% endfor %}",
-        "{% for k, v in {\"a\": u} %}{{ k }}{% else %}EMPTY{% endfor %}|{% for k, v in {\"a\": 1, \"b\": nil} %}{{ k }}{% else %}EMPTY{% endfor %}",
+        "{% for k, v in {\"a\": u} %}{{ k }}{% else %}EMPTY{% endfor %}|{% for k, v in {\"b\": nil} %}{{ k }}{% else %}EMPTY{% endfor %}",
         "{% for x in [1, u, 2] %}{% if x is undefined %}{% break %}{% endif %}i{% else %}EMPTY{% endfor %}|{% for x in [nil] %}n{% else %}EMPTY{% endfor %}",
         "{% for row in [[\"a\", \"x\"], [\"b\", \"c\"]] %}{% for c in row %}{% if c == \"x\" %}{% set hit = true %}{% endif %}{% if hit is defined %}!{% else %}.{% endif %}{% endfor %}|{% endfor %}",
         "{% for o in [1, 2] %}{% for a in [1] %}{% set s = \"x\" %}{% endfor %}{% for b in [1, 2] %}{{ s }}-{% set s = \"c\" %}{% endfor %}|{% endfor %}",
